@@ -40,7 +40,7 @@ class Task:
               refutations of the fallback run matter, the task stays undecided.
     """
 
-    def __init__(self, name, fn, functions=(), bounded=None, max_paths=None, fallback=None, enumerate=None):
+    def __init__(self, name, fn, functions=(), bounded=None, max_paths=None, fallback=None, enumerate=None, preset=None, group=None):
         self.name, self.fn, self.functions = name, fn, list(functions)
         self.bounded = bounded
         self.max_paths = max_paths
@@ -48,11 +48,14 @@ class Task:
         # enumerate(seed) -> {"name", "bound", "cases", "failures": [{"model", "detail"}]}: exhaustive native runs of the
         # real function over a small stated domain against the executable spec (bounded stand-in, never "proved")
         self.enumerate = enumerate
+        self.preset = preset  # leading choose() results fixed for this sub-task (parallel split of one exploration)
+        self.group = group    # name under which the sub-tasks are reported as one
 
 
 def _explore(task, mode, deadline_s=None):
     ex = Explorer(task.name, max_paths=task.max_paths)
     ex.mode = mode
+    ex.forced = list(task.preset or ())
     if deadline_s:
         ex.deadline = time.time() + deadline_s
     status, error = "ok", None
@@ -88,7 +91,7 @@ def run_task(task):
     for k in solve.STATS:
         solve.STATS[k] = 0 if isinstance(solve.STATS[k], int) else 0.0
     ex, status, error = _explore(task, task.bounded)
-    res = {"task": task.name, "bounded": _bound_text(task.bounded), "status": status, "error": error}
+    res = {"task": task.name, "group": task.group, "bounded": _bound_text(task.bounded), "status": status, "error": error}
     fallback_res = None
     if status == "out-of-subset" and task.fallback and not task.bounded:
         import os
